@@ -458,7 +458,7 @@ func (x *Exec) solve(res *FnResult, opt Options) {
 		if pathMS > 4000 {
 			pathMS = 4000
 		}
-		if x.cx.bv && opt.TimeoutMS >= 10000 {
+		if (x.cx.bv || (x.con != nil && x.con.Slow > 0)) && opt.TimeoutMS >= 10000 {
 			pathMS = 10000 // bit-vector goals are decided by bit-blasting: heavier, but never "stuck"; give them room under load
 		}
 		s := x.compose(prelude, p, -1, pathMS, &refs, pi)
@@ -550,6 +550,8 @@ func (x *Exec) solve(res *FnResult, opt Options) {
 				escMS := opt.TimeoutMS
 				if x.cx.bv {
 					escMS = 5 * opt.TimeoutMS
+				} else if x.con != nil && x.con.Slow > 0 {
+					escMS = x.con.Slow * opt.TimeoutMS
 				}
 				s := x.compose(prelude, x.paths[in.ref.path], in.ref.idx, escMS, nil, in.ref.path)
 				t1 := time.Now()
